@@ -494,6 +494,68 @@ BYPASS = {
 RAW_OK = {LOCK, SLOW, CLOS}  # the lock's own implementation may call its raw methods
 
 
+def address_only(body, t):
+    """`Arc::as_ptr(..)` that cannot reach the protected state: the Arc does not hold the channel state at all, or the pointer
+    is used as an address only (compared, hashed, printed, cast to an integer) and never dereferenced or handed on"""
+    targ = ' '.join(str(a) for a in (t['fn'].get('args') or []))
+    if 'ChannelInternal' not in targ:
+        return True
+    if t.get('dest') is None or t['dest']['p']:
+        return False
+    taint = {t['dest']['l']}
+    OKCALLS = ('std::ptr::eq', 'std::hash::Hash::hash', 'std::cmp::PartialEq::eq', 'std::cmp::PartialEq::ne', 'std::ptr::addr_eq')
+    for _ in range(8):
+        grew = False
+        for blk in body.blocks:
+            for st in blk['stmts']:
+                if st['k'] != 'assign':
+                    continue
+                rv = st['rv']
+                ops = []
+                if rv['k'] in ('use', 'cast', 'repeat'):
+                    ops = [rv['o']]
+                elif rv['k'] == 'bin':
+                    ops = [rv['a'], rv['b']]
+                elif rv['k'] == 'un':
+                    ops = [rv['a']]
+                elif rv['k'] == 'agg':
+                    ops = list(rv['fields'])
+                elif rv['k'] in ('ref', 'rawptr'):
+                    if rv['p']['l'] in taint and '*' in rv['p']['p']:
+                        return False
+                    if rv['p']['l'] in taint and st['lhs']['l'] not in taint:
+                        taint.add(st['lhs']['l'])
+                        grew = True
+                    continue
+                for o in ops:
+                    if o.get('k') in ('copy', 'move') and o['p']['l'] in taint:
+                        if '*' in o['p']['p']:
+                            return False
+                        if rv['k'] == 'bin':
+                            continue  # comparison result: a bool
+                        if rv['k'] == 'cast' and str(rv.get('ty', '')).strip() in ('usize', 'u64', 'isize', 'i64', 'u128'):
+                            continue  # an address as a number: the end of the pointer
+                        if st['lhs']['l'] not in taint:
+                            taint.add(st['lhs']['l'])
+                            grew = True
+                if st['lhs']['l'] in taint and '*' in st['lhs']['p']:
+                    return False
+            tt = blk['term']
+            if tt['k'] == 'call' and tt is not t:
+                for o in tt.get('args') or []:
+                    if o.get('k') in ('copy', 'move') and o['p']['l'] in taint:
+                        if '*' in o['p']['p']:
+                            return False
+                        cn = canon(tt['fn']['path']) if tt.get('fn') else ''
+                        if cn not in OKCALLS and not cn.startswith('std::fmt::'):
+                            return False
+        if not grew:
+            break
+    if 0 in taint:
+        return False  # the pointer itself leaves the function
+    return True
+
+
 @rule('M6', ['C03', 'C17'], 'no bypass of the channel lock: no raw access to the protected state, no forced unlock, no guard leak')
 def m6(ctx):
     n = 0
@@ -505,6 +567,8 @@ def m6(ctx):
             n += 1
             if name in BYPASS:
                 if name.startswith('lock_api::RawMutex::') and key in RAW_OK:
+                    continue
+                if name == 'std::sync::Arc::as_ptr' and address_only(b, t):
                     continue
                 ctx.violate(key, None, 'call to %s bypasses the channel lock discipline' % name, at=t.get('at'), sig='bypass:' + name)
     ctx.oblige(n, sample='%d call sites scanned, none in the bypass set' % n)
